@@ -469,6 +469,86 @@ func (x *runner) probeXCrypto(g *gen) {
 	}
 }
 
+// ---------- the real server behind the frames ----------
+
+// realServerFrames: add-hardware-certificate frames (both encodings) served by a REAL yubiagent server over a real
+// shim agent and a key-ring agent - the code the mock agent of the other streams stands in for.  The certificates
+// carry KeyIds of every shape (YSSHCA KeyIds with edge values in their numeric members, near misses, free text).
+func (x *runner) realServerFrames() {
+	c := x.c
+	dir, err := os.MkdirTemp("", "verif-c12-")
+	if err != nil {
+		c.Note("no temp dir: " + err.Error())
+		return
+	}
+	defer os.RemoveAll(dir)
+	sock := filepath.Join(dir, "agent.sock")
+	ln, err := net.Listen("unix", sock)
+	if err != nil {
+		c.Note("cannot listen: " + err.Error())
+		return
+	}
+	defer ln.Close()
+	keyring := agent.NewKeyring()
+	_ = keyring.Add(agent.AddedKey{PrivateKey: &x.m.edPriv, Comment: "held"})
+	go func() {
+		for {
+			cn, err := ln.Accept()
+			if err != nil {
+				return
+			}
+			go func() { _ = agent.ServeAgent(keyring, cn); cn.Close() }()
+		}
+	}()
+	srv, err := yubiagent.NewServer(sock, true)
+	if err != nil {
+		c.Native("cannot start a yubiagent server over a key-ring agent: "+err.Error(), nil)
+		return
+	}
+	defer func() { core.Guard(func() { _ = srv.Close() }) }()
+	edSigner, _ := ssh.NewSignerFromKey(x.m.edPriv)
+	caSigner, _ := ssh.NewSignerFromKey(x.m.edPriv)
+	base := `{"prins":["u"],"transID":"a1b2c3","reqUser":"u","reqIP":"10.0.0.1","reqHost":"h","isFirefighter":false,"isHWKey":true,"isHeadless":false,"isNonce":false,"touchPolicy":2,"ver":1`
+	var kids []string
+	for _, u := range []string{"", `,"usage":0`, `,"usage":1`, `,"usage":2`, `,"usage":-1`, `,"usage":-2147483648`, `,"usage":1099511627776`, `,"usage":9223372036854775807`, `,"usage":-9223372036854775808`} {
+		kids = append(kids, base+u+"}")
+	}
+	for _, tp := range []string{"-1", "0", "4", "100", "-9223372036854775808"} {
+		kids = append(kids, strings.Replace(base, `"touchPolicy":2`, `"touchPolicy":`+tp, 1)+"}")
+	}
+	kids = append(kids, strings.Replace(base, `"isHWKey":true`, `"isHWKey":true,"isFirefighter":true`, 1)+`,"usage":1}`,
+		strings.Replace(base, `"ver":1`, `"ver":65535`, 1)+"}", strings.Replace(base, `"transID":"a1b2c3"`, `"transID":"A1B2C3"`, 1)+"}",
+		"free text", "", "{}", `{"ver":1}`)
+	n := 0
+	for i, kid := range kids {
+		cert := &ssh.Certificate{Key: edSigner.PublicKey(), Serial: uint64(i + 1), CertType: ssh.UserCert, KeyId: kid,
+			ValidPrincipals: []string{"u"}, ValidAfter: 1, ValidBefore: ssh.CertTimeInfinity}
+		if err := cert.SignCert(rngReader{x.c.Rng}, caSigner); err != nil {
+			continue
+		}
+		blob := cert.Marshal()
+		newEnc := ssh.Marshal(struct {
+			KeyBlob []byte `sshtype:"31"`
+			Comment string
+		}{blob, "c"})
+		legacy := append([]byte{yubiagent.AgentMessageAddHardCert}, blob...)
+		for _, body := range [][]byte{newEnc, legacy} {
+			s := append(frame(body), frame([]byte{yubiagent.AgentMessageRequestIdentities})...)
+			o := serveStream(srv, s, 20*time.Second, false)
+			in := map[string]interface{}{"keyid": kid, "stream_hex": short(s)}
+			switch {
+			case o.panicked || o.hung:
+				c.Native("a real yubiagent server crashed or hung on an add-hardware-certificate frame: "+strings.SplitN(o.panicMsg, "\n", 2)[0], in)
+			case o.err == nil && len(o.frames) != 2:
+				c.Native(fmt.Sprintf("a real yubiagent server answered %d of 2 complete request frames and returned nil", len(o.frames)), in)
+			default:
+				n++
+			}
+		}
+	}
+	c.NativeCheck(n)
+}
+
 // ---------- generators ----------
 
 type gen struct {
@@ -838,6 +918,8 @@ func runC12(c *core.Ctx) {
 			}
 		}
 	}
+
+	x.realServerFrames()
 
 	// 3. every class of valid frame alone, then truncated at every prefix position (short ones) or at random cuts
 	for kind := 0; kind <= 8; kind++ {
